@@ -43,7 +43,8 @@ fn abs_pos<R: Read>(r: &H263Reader<R>, base: usize) -> usize {
 
 // ---- fixed-width reads ---------------------------------------------------------------------------------------------------------------------------
 // peek / read / skip of n bits, n = 0..=NMAX, into u32: value, position, failure (EOF) consumes nothing and keeps what it fetched
-fn h_read_u32<S: Src, const TOTAL: usize, const B: usize, const POS: usize, const NMAX: usize>(s: &mut S) {
+// (widths n = 0, STEP, 2*STEP, ... and always NMAX)
+fn h_read_u32<S: Src, const TOTAL: usize, const B: usize, const POS: usize, const NMAX: usize, const STEP: usize>(s: &mut S) {
     let all: [u8; MAXB] = s.arr();
     let mut n = 0;
     while n <= NMAX {
@@ -90,16 +91,17 @@ fn h_read_u32<S: Src, const TOTAL: usize, const B: usize, const POS: usize, cons
                 core::mem::forget(e);
             }
         }
-        n += 1;
+        n = if n < NMAX && n + STEP > NMAX { NMAX } else { n + STEP };
     }
     s.reach();
 }
 
 // narrow and signed types: width check (n > width => InternalDecoderError), zero extension, two's-complement sign extension
-fn h_read_narrow<S: Src, const TOTAL: usize, const B: usize, const POS: usize>(s: &mut S) {
+// (widths NLO..=NHI; the driver's shapes cover 0..=17 between them)
+fn h_read_narrow<S: Src, const TOTAL: usize, const B: usize, const POS: usize, const NLO: usize, const NHI: usize>(s: &mut S) {
     let all: [u8; MAXB] = s.arr();
-    let mut n = 0;
-    while n <= 17 {
+    let mut n = NLO;
+    while n <= NHI {
         let fits = POS + n <= TOTAL * 8;
         let mut r = mk(&all, TOTAL, B, POS);
         match r.read_bits::<u8>(n as u32) {
@@ -415,9 +417,9 @@ fn h_append<S: Src, const FIRST: usize, const N: usize>(s: &mut S) {
 mod proofs {
     use super::*;
     macro_rules! shape {
-        ($name:ident, $f:ident, $($g:expr),*) => {
+        ($name:ident, $f:ident, $u:expr, $($g:expr),*) => {
             #[kani::proof]
-            #[kani::unwind(36)]
+            #[kani::unwind($u)]
             fn $name() {
                 $f::<KSrc, $($g),*>(&mut KSrc)
             }
@@ -430,7 +432,7 @@ mod proofs {
 mod replay {
     use super::*;
     macro_rules! shape {
-        ($name:ident, $f:ident, $($g:expr),*) => {
+        ($name:ident, $f:ident, $u:expr, $($g:expr),*) => {
             pub fn $name(r: &mut RSrc) {
                 $f::<RSrc, $($g),*>(r)
             }
